@@ -46,8 +46,8 @@ CLAIMED = {
         "technique": TECH,
     },
     "C03": {
-        "level_text": "bounded symbolic verification of every @mutation method of EvolvableMLP (add/remove layer, add/remove node), EvolvableCNN (add/remove layer, change_kernel, add/remove channel, with MutableKernelSizes and calc_max_kernel_sizes), EvolvableSimBa, EvolvableLSTM, EvolvableResNet (add/remove block or layer, add/remove node or channel; count and width fully symbolic) and EvolvableNetwork.add/remove_latent_node, run through the real _mutation_wrapper/MutationContext of a real module whose architecture attributes are proxies: ONE mutation from an ARBITRARY architecture inside its declared bounds (hence chains of any length), for all widths/channels/kernels, declared min/max, input H,W in [4,128], arguments and random draws at <=2(3) layers, strides in {1,2}: post-state inside [min,max]; a change landing strictly inside its bound is applied exactly and nothing else moves; blocked layer mutations run the advertised fallback and last_mutation_attr names the method applied; recreate_network runs exactly once; after CNN mutations the conv-size recurrence stays valid (the network can be rebuilt); on replayed/validation models the real recreate_network runs and a real forward pass returns finite outputs of the declared shape",
-        "level_note": NOTE + "; multi-input, Conv3d, GPT/BERT and the finite-output claim for symbolic sizes are outside (real layers need concrete sizes)",
+        "level_text": "bounded symbolic verification of every @mutation method of EvolvableMLP (add/remove layer, add/remove node), EvolvableCNN (add/remove layer, change_kernel, add/remove channel, with MutableKernelSizes and calc_max_kernel_sizes), EvolvableSimBa, EvolvableLSTM, EvolvableResNet (add/remove block or layer, add/remove node or channel; count and width fully symbolic) EvolvableMultiInput.add/remove_latent_node (symbolic latent width and bounds, fresh and after a real mutation of a nested feature extractor: the rebuild takes the nested extractor's current architecture and the new latent width) and EvolvableNetwork.add/remove_latent_node, run through the real _mutation_wrapper/MutationContext of a real module whose architecture attributes are proxies: ONE mutation from an ARBITRARY architecture inside its declared bounds (hence chains of any length), for all widths/channels/kernels, declared min/max, input H,W in [4,128], arguments and random draws at <=2(3) layers, strides in {1,2}: post-state inside [min,max]; a change landing strictly inside its bound is applied exactly and nothing else moves; blocked layer mutations run the advertised fallback and last_mutation_attr names the method applied; recreate_network runs exactly once; after CNN mutations the conv-size recurrence stays valid (the network can be rebuilt); on replayed/validation models the real recreate_network runs and a real forward pass returns finite outputs of the declared shape",
+        "level_note": NOTE + "; Conv3d, GPT/BERT, the nested mutation methods of multi-input networks reached through the outer module's registry, and the finite-output claim for symbolic sizes are outside (real layers need concrete sizes)",
         "technique": TECH,
     },
     "C04": {
